@@ -5,6 +5,8 @@
    column slices, table slices, end marker.  wspec says the writers emit exactly these bytes
    (under any sufficient budget), so the output is a function of the logical content only.
    Statements only; proofs in the *Facts.v files. *)
+From Sbdf Require Import ImpCall Gen.Prog ImpFacts ImpFacts7 ImpFactsFrame.
+From Coq Require Import List.
 From Sbdf Require Import File PrimFacts SevenBit ObjFacts VaFacts SliceFacts MdFacts TmFacts FileFacts.
 
 Theorem C03_header : wspec fh_write_cur (Ok tt) [223; 91; 1; 1; 0].
@@ -80,3 +82,17 @@ Print Assumptions C03_file.
 (* MSB-first, zero-padded bit arrays *)
 Example C03_bits : pack_bits 9 [true; false; true; true; false; false; false; false; true] = [176; 128].
 Proof. reflexivity. Qed.
+
+(* ---- the string writer from the source.  sbdf_write_string of src/internals.c, with
+   sbdf_str_len / sbdf_get_array_length (the int length header the library keeps in front of a
+   string) and its call of sbdf_write_int32, translated on every run.  For every byte string stored
+   the way the library stores it (header = length + 1, bytes, terminator) and every budget of the
+   output stream: the bytes accepted are the first `budget` bytes of enc_string (the four-byte
+   little-endian length, then the bytes - not the terminator), OK exactly when all were accepted. *)
+Theorem C03_source_write_string : forall bytes B, zlen bytes + 1 < 2147483648 -> 0 <= B ->
+  exists f0, forall f, (f0 <= f)%nat -> exists fin,
+    callE prog_env f prog_sbdf_write_string [tok; VPtr RIn 4] (str_mem [] bytes []) B
+      = OReturn (VInt (if 4 + zlen bytes <=? B then SBDF_OK else SBDF_ERROR_IO)) fin /\
+    outb fin = ztake B (enc_string false bytes).
+Proof. exact write_string_source. Qed.
+Print Assumptions C03_source_write_string.
